@@ -12,7 +12,7 @@ import (
 
 // C06: required options and argument counts are enforced.
 
-var c06Decl = &GenCfg{Depth: 3, Fanout: 2, MaxOpts: 3, MaxGroups: 2, NestGroups: 2, Kinds: []Kind{KBool, KString, KInt, KStringSlice, KBoolSlice, KMapSS, KFuncS, KFunc0, KFloat64, KIntPtr, KTri, KUpper},
+var c06Decl = &GenCfg{Depth: 3, Fanout: 2, MaxOpts: 3, MaxGroups: 2, NestGroups: 2, Kinds: []Kind{KBool, KString, KInt, KStringSlice, KBoolSlice, KMapSS, KFuncS, KFunc0, KFloat64, KIntPtr, KTri, KUpper, KToggle},
 	Pos: true, PosPct: 55, PosReq: true, Ns: true, Req: 40, OptArg: true, Aliases: true, SubOpt: 35, NonASCII: true, Defaults: true, Env: true, EnvNs: true, Hidden: true, InCode: 25, ViaAdd: 5, FlagChoice: true, StaticTwins: true,
 	ParserOpts: []flags.Options{flags.HelpFlag, flags.PassDoubleDash, flags.PassAfterNonOption, flags.IgnoreUnknown}}
 
